@@ -1,4 +1,5 @@
 use crate::common::Ctx;
+pub mod c16;
 pub mod c12;
 pub mod c20;
 pub mod c06;
@@ -36,6 +37,7 @@ pub fn dispatch(ctx: &mut Ctx) -> bool {
         "C06" => c06::run(ctx),
         "C20" => c20::run(ctx),
         "C12" => c12::run(ctx),
+        "C16" => c16::run(ctx),
         _ => return false,
     }
     true
